@@ -12,8 +12,8 @@
 (* allowed, no SDO frame may reach the application, and dumped object      *)
 (* contents must equal the reference dictionary.                           *)
 (* Trace lines:                                                            *)
-(*  {"e":"cfg","dict":[[idx,sub,r,w,kind,data,abort]...]}   first line     *)
-(*  {"e":"rx","f":[8],"tx":[[8]...],"chg":[[idx,sub]...],"app":n}          *)
+(*  {"e":"cfg","nsrv":n,"dict":[[idx,sub,r,w,kind,data,abort]...]}  line 1 *)
+(*  {"e":"rx","srv":k,"f":[8],"tx":[[8]...],"chg":[[idx,sub]...],"app":n}  *)
 (*  {"e":"dump","idx":i,"sub":s,"data":[...]}                              *)
 (*  {"e":"reset"}   a new node is started with the logged dictionary       *)
 (* While the reference does not know the server's state (after a step the  *)
@@ -22,9 +22,12 @@
 (***************************************************************************)
 EXTENDS CoSsdo, TLC, Json, IOUtils
 TraceLog == ndJsonDeserialize(IOEnv.TRACE)
-VARIABLES s, d, sync, l, nd
-tvars == <<s, d, sync, l, nd>>
+\* s, sync, open are functions of the server number (CO_SSDO_N = 1 or 2; the servers share the dictionary);
+\* open[k]: the object an out-of-sync server may still be writing to (0 = none)
+VARIABLES s, d, sync, open, l, nd
+tvars == <<s, d, sync, open, l, nd>>
 Ev == TraceLog[l]
+NSrv == TraceLog[1].nsrv
 D0 == [p \in 1..Len(TraceLog[1].dict) |->
          LET o == TraceLog[1].dict[p] IN
          [idx |-> o[1], sub |-> o[2], r |-> (o[3] = 1), w |-> (o[4] = 1), kind |-> o[5], data |-> o[6], abort |-> o[7]]]
@@ -41,39 +44,49 @@ MayChange(s0, d0, r) ==
   \cup (IF r.s.o # 0 /\ r.s.mode \in {"dseg", "bdl", "bdw"} THEN {<<d0[r.s.o].idx, d0[r.s.o].sub>>} ELSE {})
 ChgSet == {<<Ev.chg[k][1], Ev.chg[k][2]>> : k \in 1..Len(Ev.chg)}
 
-TInit == s = Idle /\ d = D0 /\ sync = TRUE /\ l = 2 /\ nd = 0
+Fresh == /\ s = [k \in 1..NSrv |-> Idle] /\ d = D0 /\ sync = [k \in 1..NSrv |-> TRUE] /\ open = [k \in 1..NSrv |-> 0]
+TInit == Fresh /\ l = 2 /\ nd = 0
 \* a rejection has no counterexample: say which line, and what the reference demanded
 Reject(what) == PrintT(<<"REJECT", ToJson([l |-> l, exp |-> what])>>) /\ FALSE
+Unk(dd, p) == IF p = 0 THEN dd ELSE [dd EXCEPT ![p] = Unknown(@)]
 
 TRx ==
   /\ Ev.e = "rx"
   /\ (IF Ev.app = 0 THEN TRUE ELSE Reject("app"))                      \* C09: a frame on the server's identifier is the server's
   /\ LET f == Ev.f
-         r == Step(s, d, f) IN
-     IF ~sync /\ r.open # "abort"
-     THEN /\ s' = Idle /\ sync' = FALSE /\ nd' = nd
-          /\ d' = LET p == Lookup(d, FIdx(f), FSub(f)) IN
-                  IF IsInitiate(Cmd(f)) /\ p # 0 THEN [d EXCEPT ![p] = Unknown(@)] ELSE d
-     ELSE /\ s' = r.s /\ d' = r.d
-          /\ sync' = (IF r.open = "abort" THEN TRUE ELSE IF r.open = "free" THEN FALSE ELSE sync)
+         k == Ev.srv
+         r == Step(s[k], d, f) IN
+     IF ~sync[k] /\ r.open # "abort"
+     THEN \* the reference does not know this server's state: the object it may have open (named by the last initiate)
+          \* can be written by any frame
+          LET p == Lookup(d, FIdx(f), FSub(f))
+              o1 == IF IsInitiate(Cmd(f)) THEN p ELSE open[k] IN
+          /\ s' = [s EXCEPT ![k] = Idle] /\ sync' = sync /\ nd' = nd
+          /\ open' = [open EXCEPT ![k] = o1]
+          /\ d' = Unk(Unk(d, open[k]), o1)
+     ELSE /\ s' = [s EXCEPT ![k] = r.s] /\ d' = r.d
+          /\ sync' = [sync EXCEPT ![k] = (IF r.open = "abort" THEN TRUE ELSE IF r.open = "free" THEN FALSE ELSE @)]
+          /\ open' = [open EXCEPT ![k] = IF r.open = "free" THEN s[k].o ELSE 0]
           /\ nd' = (IF r.open = "det" THEN nd + 1 ELSE nd)
           \* (IF, not \/: TLC explores both disjuncts of an action-level disjunction, the message would be printed regardless)
           /\ IF r.open # "det" THEN TRUE
              ELSE IF ~MatchOut(r.out, Ev.tx) THEN Reject(r.out)
-             ELSE IF ~(ChgSet \subseteq MayChange(s, d, r)) THEN Reject(<<"chg", MayChange(s, d, r)>>)
+             ELSE IF ~(ChgSet \subseteq MayChange(s[k], d, r)) THEN Reject(<<"chg", MayChange(s[k], d, r)>>)
              ELSE TRUE
 \* the content of the target of an open download is in flux
+InFlux(p) == \E k \in 1..NSrv : (s[k].o = p /\ s[k].mode \in {"dseg", "bdl", "bdw"}) \/ open[k] = p
 TDump ==
   /\ Ev.e = "dump"
   /\ LET p == Lookup(d, Ev.idx, Ev.sub) IN
      /\ p # 0
-     /\ IF (s.o = p /\ s.mode \in {"dseg", "bdl", "bdw"}) \/ MatchData(d[p].data, Ev.data) THEN TRUE ELSE Reject(d[p].data)
-  /\ UNCHANGED <<s, d, sync, nd>>
-TReset == Ev.e = "reset" /\ s' = Idle /\ d' = D0 /\ sync' = TRUE /\ nd' = nd
+     /\ IF InFlux(p) \/ MatchData(d[p].data, Ev.data) THEN TRUE ELSE Reject(d[p].data)
+  /\ UNCHANGED <<s, d, sync, open, nd>>
+TReset == /\ Ev.e = "reset" /\ nd' = nd
+          /\ s' = [k \in 1..NSrv |-> Idle] /\ d' = D0 /\ sync' = [k \in 1..NSrv |-> TRUE] /\ open' = [k \in 1..NSrv |-> 0]
 TNext == l <= Len(TraceLog) /\ l' = l + 1 /\ (TRx \/ TDump \/ TReset)
 TSpec == TInit /\ [][TNext]_tvars
 Accepted == TLCGet("stats").diameter = Len(TraceLog)
-InvSrvT == SrvOK(s, d)
+InvSrvT == \A k \in 1..NSrv : SrvOK(s[k], d)
 \* vacuity guard: the number of requests whose response was determined and compared is reported
 Report == l <= Len(TraceLog) \/ PrintT(<<"DET", ToJson([nd |-> nd, n |-> Len(TraceLog)])>>)
 =============================================================================
